@@ -229,19 +229,37 @@ func c19Plan(p *PRNG, cfg Config, tier string) Plan {
 			plan.Blocks[bi].Ops = append(plan.Blocks[bi].Ops, Op{K: "replay", N: int64(p.Intn(1 << 20))})
 		}
 	}
+	if cfg.GatewayContract {
+		// the gateway is a forwarder contract (deployed by user 2 with its first transaction); a
+		// quarter of its calls go through a frame that REVERTS after the precompile returned: the
+		// restaking state reached through the precompile must be rolled back with the frame
+		for i := range plan.Blocks {
+			for j := range plan.Blocks[i].Ops {
+				o := &plan.Blocks[i].Ops[j]
+				switch o.K {
+				case "dep", "wd", "del", "und", "assoc", "dissoc":
+					if o.M == 0 && p.Chance(1, 4) {
+						o.M = 2
+					}
+				}
+			}
+		}
+		plan.Blocks[0].Ops = append([]Op{{K: "etx", A: 2, E: 4, N: 400000}}, plan.Blocks[0].Ops...)
+	}
 	return plan
 }
 
 func init() {
 	Register(&PropSpec{
 		ID: "C19", Level: "exploration",
-		Rule: "Ethereum transactions of all three types (legacy, access-list, dynamic-fee) from three senders, several per block and per sender: plain transfers (value 0, 1, 1e12, half the balance, balance+1), contract creations (storage writer, store-then-revert, gas burner, forwarder), calls of deployed contracts, garbage calldata, gas limits 20999..40M, prices below the base fee / zero / normal / x1000 / tip above cap, nonce gaps and replays, interleaved with gateway precompile calls and cosmos transactions, base fee on or off, min-gas multiplier from genesis; around every transaction: nonce +1, min-multiplier x limit <= gas used <= limit, fee collector delta = gas used x effective price, sender delta = -(value + fee) with value 0 on failure, recipient delta, and for failed executions and for transactions failing admission a byte-level dump of the evm and restaking stores must be unchanged; non-trivial = >= 10 executed, >= 1 failed execution, >= 1 rejected at admission, all three tx types seen",
+		Rule: "Ethereum transactions of all three types (legacy, access-list, dynamic-fee) from three senders, several per block and per sender: plain transfers (value 0, 1, 1e12, half the balance, balance+1), contract creations (storage writer, store-then-revert, gas burner, forwarder), calls of deployed contracts, garbage calldata, gas limits 20999..40M, prices below the base fee / zero / normal / x1000 / tip above cap, nonce gaps and replays, interleaved with gateway precompile calls (in a third of the runs through a forwarder CONTRACT gateway, a quarter of those in a frame that reverts after the precompile returned) and cosmos transactions, base fee on or off, min-gas multiplier from genesis; around every transaction: nonce +1, min-multiplier x limit <= gas used <= limit, fee collector delta = gas used x effective price, sender delta = -(value + fee) with value 0 on failure, recipient delta, and for failed executions and for transactions failing admission a byte-level dump of the evm and restaking stores must be unchanged; non-trivial = >= 10 executed, >= 1 failed execution, >= 1 rejected at admission, all three tx types seen",
 		Assumptions: []string{"the proposer is the harness: transactions failing admission are delivered anyway (a Byzantine proposer could) and must then cost and change nothing", "contracts are hand-assembled bytecode (no Solidity artefacts)"},
 		QuickRuns:   400, ThoroughRuns: 6000,
 		GenConfig: func(p *PRNG, tier string) Config {
 			c := SwarmConfig(p, SwarmOpts{})
 			c.HugeAmounts = false
 			c.MinGasMult = []string{"", "0", "0.5", "0.9", "1"}[p.Intn(5)]
+			c.GatewayContract = p.Chance(1, 3)
 			if p.Chance(1, 3) {
 				c.BlockMaxGas = int64([]int{1_000_000, 5_000_000, 30_000_000}[p.Intn(3)])
 			}
